@@ -329,14 +329,17 @@ class Runner:
         for mod in ("c18fmt", "c18fmt2"):   # importable by `python -m …` and `python -c …` (cwd is on sys.path)
             (d / f"{mod}.py").write_text(FORMATTER_SRC.format(name=mod))
         if pyproject is not None or raw_keys:
-            lines = ["[tool.datamodel-codegen]"]
-            for k, v in (pyproject or {}).items():
-                val = py_value(self.tab[k]["kind"], v)
-                lines.append(f"{k.replace('_', '-')} = {json.dumps(val)}")
-            for k, val in (raw_keys or {}).items():
-                lines.append(f"{json.dumps(k)} = {json.dumps(val)}")
-            (d / "pyproject.toml").write_text("\n".join(lines) + "\n")
+            (d / "pyproject.toml").write_text(self.pyproject_text(pyproject, raw_keys))
         return d
+
+    def pyproject_text(self, pyproject: dict | None, raw_keys: dict | None = None) -> str:
+        lines = ["[tool.datamodel-codegen]"]
+        for k, v in (pyproject or {}).items():
+            val = py_value(self.tab[k]["kind"], v)
+            lines.append(f"{k.replace('_', '-')} = {json.dumps(val)}")
+        for k, val in (raw_keys or {}).items():
+            lines.append(f"{json.dumps(k)} = {json.dumps(val)}")
+        return "\n".join(lines) + "\n"
 
     def cli(self, cli: dict, pyproject: dict | None = None, extra_argv: list[str] | None = None, raw_keys: dict | None = None) -> dict:
         d = self._dir(pyproject, raw_keys)
@@ -754,7 +757,7 @@ def rerun(ck: Check, rn: Runner, inp: dict) -> None:
 
     camp = ck.campaign("replay")
     kind = inp.get("kind")
-    if kind == "repeated":
+    if kind in ("repeated", "repeated_rewritten"):
         c18_repeat.rerun(ck, camp, rn, inp)
     elif kind == "kv":
         c18_kv.rerun(ck, camp, rn, inp)
